@@ -342,6 +342,30 @@ def extentfirst(run, fx):
         run.held('VALIDATOR', inst, fn.where(), '%d tests against pass_end dominate all %d consumers' % (len(tests), len(cons)))
 
 
+def attridx(run, fx):
+    """OPERANDCHECK: the per-attribute operand limit table `limits::attrid[]` is indexed by an attribute number taken from the bytecode;
+    every such subscript in the decoder is dominated by the TRUE result of valid_upto(gr_slatMax, <the same operand>) (sibling
+    agreement: the three opcode groups that use a sub-index all nest the second test inside the first)."""
+    n = 0
+    for fn in fx.all_fns():
+        if 'Machine::Code::decoder' not in fn.q:
+            continue
+        for _, e in fn.elements():
+            if e['k'] != 'ArraySubscriptExpr' or not fn.render(fn.N(e['c'][0])).endswith('attrid'):
+                continue
+            n += 1
+            ix = fn.render(fn.strip_all_casts(fn.N(e['c'][1])))
+            inst = 'attrid[%s] @%s is indexed under valid_upto(gr_slatMax, %s)' % (ix, e['ln'], ix)
+            ok = [f for f in dom.facts_at(fn, e['i']) if 'valid_upto(' in f[0] and f[0].rstrip(')').endswith(', ' + ix) and f[1] == '!=' and f[2] == '0']
+            if ok:
+                run.held('OPERANDCHECK', inst, fn.loc(e), 'dominated by %s' % ok[0][0])
+            else:
+                run.violated('OPERANDCHECK', inst, fn.loc(e), 'the attribute-limit table is indexed with the bytecode operand `%s` although no dominating valid_upto(gr_slatMax, %s) has '
+                             'succeeded: an attribute number beyond the table reads (on the loader\'s stack) past its end; the font is rejected afterwards, the read has happened' % (ix, ix))
+    if n < 3:
+        run.broken('OPERANDCHECK', 'attrid subscripts', 'expected the three attrid[] subscripts of the decoder, found %d' % n)
+
+
 def narrowinit(run, fx):
     """an offset or size computed from a count read from the font (`header + sizeof(T) * (count + 1)`) must not be held in a type it
     can overflow: no local of at most 16 bits in src/ is initialised, by an implicit narrowing conversion, from a wider non-constant
@@ -384,6 +408,7 @@ def run(run):
     vm = R.get_vm(run)
     fx = vm.fx
     narrowinit(run, fx)
+    attridx(run, fx)
     checkafteruse(run, fx)
     extentfirst(run, fx)
     namebound(run, fx)
